@@ -94,68 +94,51 @@ macro_rules! recover_stubs {
         #[kani::stub(<star_sharks::Fp as ff::PrimeField>::to_repr, fp_to_repr_spec)]
         #[kani::stub(<star_sharks::Fp as core::ops::MulAssign<&star_sharks::Fp>>::mul_assign, fp_mul_assign_laws)]
         #[kani::stub(<star_sharks::Fp as ff::Field>::invert, fp_invert_laws)]
+        #[kani::stub(star_sharks::Sharks::recover, sharks_recover_ref)]
         $(#[$m])*
         fn $name() $body
     };
 }
 
-/// one or two arbitrary byte strings that the real decoder accepts, handed to
-/// `share_recover` (thresholds, points, values, ciphertexts, MAC all attacker-chosen)
-fn recover_decoded<const N1: usize, const N2: usize>() {
-    let b1: [u8; N1] = kani::any();
-    let s1 = sta_rs::Share::from_bytes(&b1[..]);
-    if N2 == 0 {
-        if let Some(a) = s1 {
-            let v = [a];
-            let r = sta_rs::share_recover(&v);
-            kani::cover!(r.is_err(), "rejected");
-            core::mem::forget(r);
-            core::mem::forget(v);
-        }
-    } else {
-        let b2: [u8; N2] = kani::any();
-        let s2 = sta_rs::Share::from_bytes(&b2[..]);
-        if let (Some(a), Some(b)) = (s1, s2) {
-            let v = [a, b];
-            let r = sta_rs::share_recover(&v);
-            kani::cover!(r.is_err(), "rejected");
-            core::mem::forget(r);
-            core::mem::forget(v);
-        }
+/// a share of the given chunk lengths with arbitrary contents (threshold, point, values,
+/// ciphertexts, MAC all attacker-chosen), decoded by the real decoder
+fn decoded_share(sn: usize, cn: usize, dn: usize) -> Option<sta_rs::Share> {
+    let body: [u8; 160] = kani::any();
+    let mut buf = body;
+    let n = 4 + 4 + sn + 4 + cn + 4 + dn + 64;
+    let put = |buf: &mut [u8; 160], o: usize, v: usize| {
+        let b = (v as u32).to_le_bytes();
+        buf[o] = b[0];
+        buf[o + 1] = b[1];
+        buf[o + 2] = b[2];
+        buf[o + 3] = b[3];
+    };
+    put(&mut buf, 4, sn);
+    put(&mut buf, 8 + sn, cn);
+    put(&mut buf, 12 + sn + cn, dn);
+    sta_rs::Share::from_bytes(&buf[..n])
+}
+/// `share_recover` never panics on one or two decoded shares (incl. shares without
+/// y-coordinate, thresholds 0 and 2^32-1, equal points, zero points)
+fn recover1(sn: usize, cn: usize, dn: usize) {
+    ro_reset();
+    if let Some(a) = decoded_share(sn, cn, dn) {
+        let v = [a];
+        let r = sta_rs::share_recover(&v);
+        kani::cover!(r.is_err(), "rejected");
+        core::mem::forget((r, v));
     }
 }
-recover_stubs! { #[kani::unwind(5)] fn c09_recover_104() { recover_decoded::<104, 0>() } }
-recover_stubs! { #[kani::unwind(5)] fn c09_recover_128() { recover_decoded::<128, 0>() } }
-recover_stubs! { #[kani::unwind(5)] fn c09_recover_128_128() { recover_decoded::<128, 128>() } }
-recover_stubs! { #[kani::unwind(5)] fn c09_recover_104_128() { recover_decoded::<104, 128>() } }
-
-/// Shamir recovery on arbitrary in-memory shares (n <= 3, equal or unequal lengths, any
-/// threshold, duplicate points, zero points)
-fn sharks_recover_any<const N: usize>() {
-    let t: u32 = kani::any();
-    let mut v: Vec<star_sharks::Share> = Vec::with_capacity(N);
-    let mut i = 0;
-    while i < N {
-        let x: [u64; 3] = kani::any();
-        kani::assume(limbs_lt_p(&x));
-        let ny: u8 = kani::any();
-        kani::assume(ny <= 1);
-        let mut y = Vec::new();
-        if ny == 1 {
-            let yl: [u64; 3] = kani::any();
-            kani::assume(limbs_lt_p(&yl));
-            y.push(fp_from_limbs(yl));
-        }
-        v.push(star_sharks::Share { x: fp_from_limbs(x), y });
-        i += 1;
+fn recover2(sn1: usize, sn2: usize) {
+    ro_reset();
+    if let (Some(a), Some(b)) = (decoded_share(sn1, 2, 2), decoded_share(sn2, 0, 0)) {
+        let v = [a, b];
+        let r = sta_rs::share_recover(&v);
+        kani::cover!(r.is_err(), "rejected");
+        core::mem::forget((r, v));
     }
-    let sh = star_sharks::Sharks(t);
-    let r = sh.recover(&v);
-    kani::cover!(r.is_ok(), "recovered");
-    kani::cover!(r.is_err(), "refused");
-    core::mem::forget(r);
-    core::mem::forget(v);
 }
-recover_stubs! { #[kani::unwind(6)] fn c09_sharks_recover_n0() { sharks_recover_any::<0>() } }
-recover_stubs! { #[kani::unwind(6)] fn c09_sharks_recover_n2() { sharks_recover_any::<2>() } }
-recover_stubs! { #[kani::unwind(6)] fn c09_sharks_recover_n3() { sharks_recover_any::<3>() } }
+recover_stubs! { #[kani::unwind(5)] fn c09_recover_noy() { recover1(24, 2, 2) } }
+recover_stubs! { #[kani::unwind(5)] fn c09_recover_y1() { recover1(48, 2, 2) } }
+recover_stubs! { #[kani::unwind(5)] fn c09_recover_y1_y1() { recover2(48, 48) } }
+recover_stubs! { #[kani::unwind(5)] fn c09_recover_noy_y1() { recover2(24, 48) } }
